@@ -120,6 +120,9 @@ def build(run):
     Rg = lambda rk=False, ex=None: {"op": "make_credential", "req": mc_req(rng, rk=rk, exclude=ex)}
     groups = [(g, base) for g in ([A(), A()], [A(), Rg()], [Rg(), Rg()], [A(), A2()], [A(), Rg(rk=True)], [Rg(ex=[cid]), A()])]
     groups += [([A(), A()], fresh), ([A(), Rg()], fresh), ([A(), As()], base), ([As(), As()], fresh)]
+    # a registration for the SAME account (RP and user handle) as the credential an overlapping assertion writes back
+    RgSame = lambda: {"op": "make_credential", "req": mc_req(rng, rk=True, user_id=b"\x01\x02")}
+    groups += [([A(), RgSame()], base), ([RgSame(), A()], fresh)]
     if run.tier != "quick":
         groups += [(g, base) for g in ([A(), A(), A()], [A(), A(), Rg()], [A(), Rg(), Rg()], [Rg(), Rg(), Rg()])]
         groups += [([A(), A(), A()], fresh)]
@@ -132,7 +135,7 @@ def build(run):
         cap = 260 if run.tier == "quick" else 2500
         if len(allm) > cap:
             allm = rng.sample(allm, cap); exhaustive = False
-        for kind in kinds:
+        for kind in (kinds + (["arc_mutex_ref"] if run.tier == "quick" and [o["op"] for o in g] in (["make_credential", "make_credential"], ["get_assertion", "make_credential"]) and content is base else [])):
             for sched in allm:
                 scs.append({"mode": "concurrent", "config": {"aaguid": "00" * 16, "counter": True, "id_len": 16, "hmac": None},
                             "store": {"kind": kind, "disc": "full", "empty_is_err": False, "content": content},
@@ -161,6 +164,82 @@ def build(run):
                     "user": {"verif_enabled": True, "presence_enabled": True, "script": [{"presence": True, "verification": True}]},
                     "ceremonies": g, "schedule": sched})
     return scs, n_exh
+
+
+def held_lock_scenarios(run):
+    """one ceremony on a shared store while somebody else (another handle on the same Arc) holds the store's lock for a
+    window of the schedule: the ceremony must wait, not answer as if the store were empty / skip its write"""
+    rng = run.rng
+    cid = bytes([0xC1]) * 16
+    base = [mk_passkey(rng, "example.com", cred_id=cid, counter=7, keyidx=0)]
+    ops = [("assert", {"op": "get_assertion", "req": ga_req(rng, allow=[cid])}),
+           ("register-excluded", {"op": "make_credential", "req": mc_req(rng, exclude=[cid])}),
+           ("register", {"op": "make_credential", "req": mc_req(rng, rk=True)})]
+    scs = []
+    kinds = ["arc_rwlock_memory", "arc_mutex_memory", "arc_rwlock_ref", "arc_mutex_ref"]
+    for kind in kinds:
+        for tag, op in ops:
+            n = polls_of(op)
+            for hold in ("write", "read"):
+                if hold == "read" and "mutex" in kind:
+                    continue
+                for frm in range(0, n):
+                    for to in (frm + 1, frm + 2):
+                        scs.append({"mode": "concurrent", "config": {"aaguid": "00" * 16, "counter": True, "id_len": 16, "hmac": None},
+                                    "store": {"kind": kind, "disc": "full", "empty_is_err": False, "content": base},
+                                    "user": {"verif_enabled": True, "presence_enabled": True, "script": [{"presence": True, "verification": True}]},
+                                    "ceremonies": [op], "schedule": [0] * (n + 3), "hold": {"kind": hold, "from": frm, "to": to}, "held_tag": tag})
+    return scs
+
+
+def judge_held(sc, out):
+    """(clause, message) failures of one held-lock scenario"""
+    fails = []
+    if "results" not in out:
+        return [("crash", "the worker crashed: %s" % json.dumps(out)[:200])]
+    if out["deadlock"] or any(r is None for r in out["results"]):
+        return [("C19", "deadlock: the ceremony never finished after the other holder released the store's lock")]
+    res = out["results"][0]
+    cid = sc["store"]["content"][0]["cred_id"]
+    before = sc["store"]["content"]
+    after = out["store_after"]
+    tag = sc["held_tag"]
+    stored = next((p for p in after if p["cred_id"] == cid), None)
+    if stored is None:
+        fails.append(("C19", "the credential the store held is gone"))
+    if tag == "assert":
+        if "ok" not in res:
+            fails.append(("C07", "an assertion on a store whose lock was briefly held by another handle failed: %s" % json.dumps(res)[:80]))
+        elif stored is not None and res["ok"]["auth_data"]["counter"] != stored["counter"]:
+            fails.append(("C07", "an assertion was returned with counter %s but the store holds %s: the store never accepted the counter value"
+                          % (res["ok"]["auth_data"]["counter"], stored["counter"])))
+    elif tag == "register-excluded":
+        if res.get("err") != 0x19:
+            fails.append(("C05", "the exclude list names a credential held for the same RP, but the registration answered %s instead of "
+                                 "CredentialExcluded (the lookup ran while another handle held the lock)" % json.dumps(res)[:80]))
+        if len(after) != len(before):
+            fails.append(("C05", "an excluded registration changed the store"))
+    else:
+        if "ok" not in res:
+            fails.append(("C19", "a registration on a briefly locked store failed: %s" % json.dumps(res)[:80]))
+        elif not any(p["cred_id"] == res["ok"]["auth_data"]["acd"]["cred_id"] for p in after):
+            fails.append(("C19", "a successfully registered credential is missing from the store afterwards"))
+    return fails
+
+
+def check_held_locks(run, clauses, binary=None):
+    """runs the held-lock scenarios for the calling property; reports the failures whose clause is in `clauses`"""
+    binary = binary or common.harness_build("ceremony")
+    scs = held_lock_scenarios(run)
+    outs = ceremony.run_scenarios(binary, scs)
+    n = 0
+    for sc, out in zip(scs, outs):
+        for clause, msg in judge_held(sc, out):
+            if clause in clauses or clause == "crash":
+                n += 1
+                if n <= 2:
+                    run.violation({"kind": msg, "scenario": sc, "observed": out})
+    return {"held_lock_scenarios": len(scs), "held_lock_failures": n}
 
 
 def check(run):
@@ -192,6 +271,8 @@ def check(run):
             for i, op, obs, t in per_ceremony_cases(sc, out):
                 terms.append(t); owners.append((si, i))
         shapes.add((sc["store"]["kind"], sc["store"]["content"][0]["counter"], tuple(o["op"] for o in sc["ceremonies"]), tuple(sc["schedule"])))
+    held = check_held_locks(run, ("C19", "C07", "C05"), binary)
+    n_fail += held["held_lock_failures"]
     res = common.coq_eval(PROP, ceremony.PREAMBLE, terms, ["agree", "store_ok"], shard=250)
     for i in res["store_ok"][:2]:
         si, ci = owners[i]
@@ -213,7 +294,7 @@ def check(run):
                 "assert/assert on two credentials, assert/register(rk), register(exclude)/assert on Arc<Mutex<MemoryStore>> and Arc<RwLock<MemoryStore>> "
                 "(thorough: triples and the reference store too), silent (up=false) assertions, sequential runs with one refused store call, on a credential with counter 7 and on a fresh one (counter 0), plus random long schedules of 2-5 ceremonies; distinct = (store kind, ceremonies, schedule)",
         "samples": [json.dumps({"ceremonies": [o["op"] for o in scs[0]["ceremonies"]], "schedule": scs[0]["schedule"], "store": scs[0]["store"]["kind"]})],
-        "exhaustive_schedules": n_exh, "per_ceremony_replays": len(terms), "model_disagreements": len(res["agree"]),
+        "exhaustive_schedules": n_exh, "held_lock": held, "per_ceremony_replays": len(terms), "model_disagreements": len(res["agree"]),
         "oracle_failures": len(res["store_ok"]) + n_fail, "known_finding_hits": n_known,
     })
     run.assumptions += ["Option<Passkey> is a one-slot store: 'present afterwards' is claimed for stores that can hold more than one credential",
